@@ -116,14 +116,21 @@ def run(repo, rep, tier):
     from ..inline import Flat
     start, stop = m('start'), m('stop')
     run_cb, handle = m('_callback_run'), m('_handle_indication')
-    stop_del, stop_thr = m('_stop_indication_delivery'), \
-        m('_stop_listener_threads')
+    # the two phases of stop() - shutting the HTTP(S) servers down and
+    # stopping the delivery - usually live in a helper each; where a helper
+    # is missing (inlined, split up differently) the whole of stop() with
+    # its helpers inlined is analysed in its place
+    stop_all_f = Flat(stop, aliases=True)
+    stop_del = lis.methods.get('_stop_indication_delivery') or stop
+    stop_thr = lis.methods.get('_stop_listener_threads') or stop
     deliver = m('_deliver_indication_to_callbacks')
     addcb = m('add_callback')
     # the order rules are judged with private helpers inlined, so that it
     # does not matter whether a step is written in place or extracted
-    stop_del_f = Flat(stop_del, aliases=True)
-    stop_thr_f = Flat(stop_thr, aliases=True)
+    stop_del_f = Flat(stop_del, aliases=True) if stop_del is not stop \
+        else stop_all_f
+    stop_thr_f = Flat(stop_thr, aliases=True) if stop_thr is not stop \
+        else stop_all_f
     run_cb_f = Flat(run_cb, keep=(deliver.name,), aliases=True)
     handle_f = Flat(handle, aliases=True)
 
@@ -210,8 +217,12 @@ def run(repo, rep, tier):
         raise AnalysisError('_callback_run no longer reads _ind_queue')
 
     # ---- R2 ---------------------------------------------------------------
+    _seen_f = []
     for f in (Flat(stop, keep=(stop_del.name, stop_thr.name), aliases=True),
               stop_del_f, stop_thr_f):
+        if any(f.node is g for g in _seen_f):
+            continue
+        _seen_f.append(f.node)
         cfg = CFG(f.node)
         joins = [s for s in cfg.stmts() if isinstance(s, ast.Expr) and
                  isinstance(s.value, ast.Call) and
@@ -332,11 +343,28 @@ def run(repo, rep, tier):
                     'with a success response but never delivered, and '
                     'stop() returns with a listener thread still running'
                     % norm(n))
-    calls = [norm(s) for s in stop.body if isinstance(s, ast.Expr)]
-    ok = 'self._stop_listener_threads()' in calls and \
-        'self._stop_indication_delivery()' in calls and \
-        calls.index('self._stop_listener_threads()') < \
-        calls.index('self._stop_indication_delivery()')
+    # stop order, on stop() with everything inlined: no server is still
+    # being shut down after the delivery has been stopped - i.e. no
+    # shutdown() / server_close() is reachable from the statements that
+    # end the delivery (join of the callback thread, release of the queue)
+    cfg_a = CFG(stop_all_f.node)
+    srv_st = [s_ for s_ in cfg_a.stmts() if isinstance(s_, ast.Expr) and
+              isinstance(s_.value, ast.Call) and
+              isinstance(s_.value.func, ast.Attribute) and
+              s_.value.func.attr in ('shutdown', 'server_close') and
+              'server' in norm(s_.value.func.value)]
+    del_st = [s_ for s_ in cfg_a.stmts() if
+              (isinstance(s_, ast.Expr) and isinstance(s_.value, ast.Call)
+               and dotted(s_.value.func) in (thread_field + '.join',
+                                             thread_field + '.stop')) or
+              (isinstance(s_, ast.Assign) and
+               isinstance(s_.value, ast.Constant) and
+               s_.value.value is None and
+               any(norm(t_) == 'self._ind_queue' for t_ in s_.targets))]
+    calls = [norm(s_, 50) for s_ in srv_st + del_st]
+    ok = bool(srv_st) and bool(del_st) and all(
+        cfg_a.path_avoiding(d_, s_, lambda n_: False) is None
+        for d_ in del_st for s_ in srv_st)
     r2.ob(ok, 'stop:order', {'stop_calls': calls})
     if not ok:
         rep.finding(r2, stop.qualname, 'stop order', 'stop-order', LS,
